@@ -135,6 +135,16 @@ def run(chk):
         if it % 3 == 1:
             ac = rename_wings(ac)
             chk.count("wing-names-with-side-words")
+        if it == 4:
+            # an outer panel at the tip of the inner one with a lateral gap (y_offset), general corrections on: the grouping of segments into
+            # lifting lines must come out the same on both sides
+            af_ = next(iter(ac["airfoils"]))
+            side_ = "both" if kind == "symmetric" else rng.choice(["left", "right"])
+            ac["wings"] = {"inner": {"ID": 1, "side": side_, "is_main": True, "semispan": 3.0, "chord": 1.0, "sweep": 10.0, "airfoil": af_, "grid": {"N": 4, "reid_corrections": True}},
+                           "outer": {"ID": 2, "side": side_, "is_main": True, "semispan": 1.2, "chord": 0.8, "sweep": 10.0, "dihedral": 8.0, "airfoil": af_,
+                                     "connect_to": {"ID": 1, "location": "tip", "y_offset": 0.3}, "grid": {"N": 3, "reid_corrections": True}}}
+            ac["controls"] = {}
+            chk.count("forced=tip-connection-with-gap")
         if it == 1:
             # a right-hand chain whose names contain "_left", whatever was drawn
             af_ = next(iter(ac["airfoils"]))
